@@ -451,8 +451,9 @@ func witnesses() []genInput {
 	w = append(w,
 		// `&` inside a pseudo-class under a parent with a combinator (6bb4c85)
 		genInput{ID: "regress-0", Items: []Item{
-			{K: "rule", Path: []PathEl{selEl("div>p"), selEl(":not(&) .c")}, Decls: color("red")},
-			{K: "rule", Path: []PathEl{selEl(".b>.a"), selEl(":is(&,.b)>span")}, Decls: color("blue")}}},
+			{K: "rule", Path: []PathEl{selEl("div>p"), selEl(".c:is(&)")}, Decls: color("red")},
+			{K: "rule", Path: []PathEl{selEl("p~div"), selEl(":is(&,#s)>span")}, Decls: color("blue")},
+			{K: "rule", Path: []PathEl{selEl(".b>.a"), selEl(":not(&) .c")}, Decls: color("tan")}}},
 		// `&` inside a pseudo-class under a parent list without :is(): every copy gets its own member (a90b7f5)
 		genInput{ID: "regress-3", Items: []Item{
 			{K: "rule", Path: []PathEl{selEl("span,a"), selEl(".c:is(&)")}, Decls: color("tan")}}},
